@@ -1,6 +1,7 @@
 package rules
 
 import (
+	"fmt"
 	"strings"
 
 	"golang.org/x/tools/go/ssa"
@@ -13,8 +14,8 @@ func init() {
 	Registry["C07"] = c07
 	Metas["C07"] = Meta{Level: "other", NeedCG: true,
 		Technique: "static analysis: dominance of log-before-handle on every input arm, must-pass-through of the flush on all paths of the WAL writer, replay-hygiene ordering rules, identity of the replayed record with the logged one",
-		Explain: "Crash points and byte-level truncation of the log cannot be enumerated statically. Decided: (R1) in receiveRoutine each of the three inputs is written to the WAL before it is handled, and the handled value is the logged one; (R2) WAL.Save/writeHeight flush after every record and a write/flush error is fatal (never silently dropped); the light-mode early return precedes any write; (R3) the height marker is written before the NewHeight record; every step is logged unconditionally by newStep (the only writer of the next height's marker); (R4) replay hygiene: replayMode brackets catchupReplay, the decode error is tested before the record is used, the logged record (with its peer key) is re-handled unchanged, failures return errors instead of panicking, and replay completes before the receive routine starts; (R5) a refused signature during replay is tolerated (shared with C03-R4). (R6) a restart rebuilds LastCommit from the stored seen commit over state.LastValidators and installs it only with +2/3. (R7) the WAL reader returns records of any length (growing read). NOT decided: torn last line, rotation, truncation at arbitrary byte offsets, equality of the restored state with the pre-crash state.",
-		Assume: []string{"go-autofile Group.Flush reports a sticky write error", "the signer refuses conflicting signatures (C03)"},
+		Explain:   "Crash points and byte-level truncation of the log cannot be enumerated statically. Decided: (R1) in receiveRoutine each of the three inputs is written to the WAL before it is handled, and the handled value is the logged one; (R2) WAL.Save/writeHeight flush after every record and a write/flush error is fatal (never silently dropped); the light-mode early return precedes any write; (R3) the height marker is written before the NewHeight record; every step is logged unconditionally by newStep (the only writer of the next height's marker); (R4) replay hygiene: replayMode brackets catchupReplay, the decode error is tested before the record is used, the logged record (with its peer key) is re-handled unchanged, failures return errors instead of panicking, and replay completes before the receive routine starts; (R5) a refused signature during replay is tolerated (shared with C03-R4). (R6) a restart rebuilds LastCommit from the stored seen commit over state.LastValidators and installs it only with +2/3. (R7) the WAL reader returns records of any length (growing read). NOT decided: torn last line, rotation, truncation at arbitrary byte offsets, equality of the restored state with the pre-crash state.",
+		Assume:    []string{"go-autofile Group.Flush reports a sticky write error", "the signer refuses conflicting signatures (C03)"},
 	}
 }
 
@@ -28,6 +29,8 @@ func c07(c *Ctx) {
 	signTolerantRule(c, "R5")
 	c07R6(c)
 	c07R7(c)
+	c07R8(c)
+	replayAllLinesRule(c, "R9")
 }
 
 func c07R1(c *Ctx) {
@@ -213,7 +216,6 @@ func c07R4(c *Ctx) {
 	}
 }
 
-
 // c07R6: what a restart rebuilds besides the WAL replay.
 func c07R6(c *Ctx) {
 	rule := c.R.Rule("R6", "restart reconstruction: reconstructLastCommit rebuilds cs.LastCommit from the stored seen-commit of state.LastBlockHeight, in a precommit vote set for that height and the commit's round over state.LastValidators (the set that signed it), and installs it only when it has +2/3", 5)
@@ -235,7 +237,9 @@ func c07R6(c *Ctx) {
 	c.R.Ob(rule, "voteset:type=precommit", callArg(nvs, 3) == "2", c.Pos(nvs), fname(f), "got "+callArg(nvs, 3))
 	c.R.Ob(rule, "voteset:validators=LastValidators", callArg(nvs, 4) == "a1.LastValidators", c.Pos(nvs), fname(f), "the seen commit of height h was signed by the validator set of height h (state.LastValidators after the block was applied), got "+callArg(nvs, 4))
 	for _, st := range f.FieldStores(rsT, "LastCommit") {
-		ok := f.HasGuard(st, func(g string) bool { return strings.HasPrefix(g, "gemmill/types.(*VoteSet).HasTwoThirdsMajority(gemmill/types.NewVoteSet(") })
+		ok := f.HasGuard(st, func(g string) bool {
+			return strings.HasPrefix(g, "gemmill/types.(*VoteSet).HasTwoThirdsMajority(gemmill/types.NewVoteSet(")
+		})
 		c.R.Ob(rule, "LastCommit-installed⊣has+2/3", ok, c.Pos(st), fname(f), "cs.LastCommit must be a set with a +2/3 majority")
 	}
 }
@@ -257,4 +261,77 @@ func c07R7(c *Ctx) {
 		}
 	}
 	c.R.Ob(rule, "ReadLine:growing-read", good >= 1 && bad == "", c.P.Pos(f.F.Pos()), fname(f), "a record longer than the reader's buffer must still be returned whole: replay (and the #HEIGHT search) otherwise stop at the first long record and everything after it — votes, lock — is lost; "+bad)
+}
+
+// c07R8: what the WAL is allowed to skip.
+func c07R8(c *Ctx) { walSkipRule(c, "R8") }
+
+// walSkipRule is shared by C07-R8, C01-R6, C04-R8 and C06-R7: agreement, the lock and crash recovery all rest on
+// the WAL holding what was handled.
+func walSkipRule(c *Ctx, id string) {
+	rule := c.R.Rule(id, "nothing is dropped from the log but peer messages in light mode: every return of WAL.Save that is not preceded by the record's WriteLine lies, on every path, under `wal == nil` or under both `wal.light` and `msgInfo.PeerKey != \"\"` — the node's own messages (proposal, parts, votes), timeouts and round steps are always logged, peers' messages always in the default mode", 2)
+	f := c.Anchor(rule, "gemmill/consensus/pbft.(*WAL).Save")
+	if f == nil {
+		return
+	}
+	var wl ssa.Instruction
+	for _, ci := range f.CallsTo(cfgx.Named("gemmill/modules/go-autofile.(*Group).WriteLine")) {
+		// the record itself (not the height marker written by writeHeight)
+		wl = ci
+	}
+	if wl == nil {
+		c.R.Undecided(rule, "Save:WriteLine", c.P.Pos(f.F.Pos()), fname(f), "no WriteLine")
+		return
+	}
+	n := 0
+	for _, r := range f.Returns() {
+		if f.Dominates(wl, r) {
+			continue
+		}
+		n++
+		ok, why := everyPath(f, r, func(g map[string]bool) bool {
+			if g["(a0 == nil)"] {
+				return true
+			}
+			peer := false
+			for k := range g {
+				if strings.HasSuffix(k, `.PeerKey != "")`) && strings.Contains(k, "msgInfo") {
+					peer = true
+				}
+			}
+			return g["a0.light"] && peer
+		})
+		c.R.Ob(rule, "skip-return⊣(nil-wal | light∧peer-message)", ok, c.Pos(r), fname(f), "a record is dropped on a path that is neither `wal == nil` nor (light mode and a peer's message): replay after a crash cannot rebuild what was handled; "+shorten(why))
+	}
+	c.R.Ob(rule, "skip-returns", n >= 2, c.P.Pos(f.F.Pos()), fname(f), fmt.Sprintf("%d returns without a write", n))
+}
+
+
+// replayAllLinesRule (C07-R9, C04-R9): every line after the height marker is replayed.
+func replayAllLinesRule(c *Ctx, id string) {
+	rule := c.R.Rule(id, "every logged line is replayed: in catchupReplay the call readReplayMessage(line) depends only on ReadLine having succeeded — no guard inspects the line's content (a filter such as `#HEIGHT` stops the replay at the marker the search positioned on, and the lock and votes of the height are not restored)", 1)
+	f := c.Anchor(rule, csT+".catchupReplay")
+	if f == nil {
+		return
+	}
+	n := 0
+	for _, ci := range f.CallsTo(cfgx.Named(csT + ".readReplayMessage")) {
+		n++
+		bad := ""
+		var lines []string
+		for _, rl := range f.CallsTo(cfgx.Named("gemmill/modules/go-autofile.(*GroupReader).ReadLine")) {
+			lines = append(lines, exprOf(rl.(ssa.Value))+"#0")
+		}
+		for _, g := range f.AllGuardForms(ci.(ssa.Instruction)) {
+			for _, l := range lines {
+				if strings.Contains(g, l) {
+					bad = g
+				}
+			}
+		}
+		c.R.Ob(rule, "readReplayMessage⊣no-content-filter", bad == "", c.Pos(ci), fname(f), "replay of a line is conditional on its content: "+shorten(bad))
+	}
+	if n == 0 {
+		c.R.Undecided(rule, "readReplayMessage", c.P.Pos(f.F.Pos()), fname(f), "no replay call")
+	}
 }
